@@ -55,6 +55,39 @@ CHECKS = {
    technique="exhaustive enumeration of grid combinations; every pair of cells against an independent Kronecker-sum composition of the factor matrices",
    text="7 rotation grids x 12 direction grids x 3 radial grids x both modes x factors {1,2,0.5} (thorough: every N 4..20 / 2..13): all three full matrices are compared entry by entry with kron(position, I) + kron(I, rotation) built from the package's own factor getters, with f / f^2 on either family; symmetry, diagonal, positivity, stored entry order, volumes and row order of the grid array are checked.",
    note="The factor matrices themselves are verified by C03-C06; this check is about composition only. Symmetry is asserted to 1e-12 relative (mirror-image faces are computed separately)."),
+
+ "C07": dict(category="exploration", design="DESIGN.md §5 C07",
+   technique="exhaustive enumeration over every N per algorithm plus every prefix length of the polytope node arrays",
+   text="Every N in 1..64 plus every subdivision-level boundary +-1 up to 643 (thorough: every N to 400, comb to 2562) for ico/cube3D/randomS, every N in 1..24, 39-41 (thorough 1..272) for cube4D/randomQ, fulldiv sizes, zero grids and N=1 by name are built through the factory and checked for shape, unit norm, pairwise (sign-folded) distinctness, separation bounds, canonical hemisphere and the exact [G; -G] layout; all prefixes of the level-3/4 and 4-D level-2 node arrays are swept incrementally.",
+   note="Trusted: direct predicates. Separation bounds only for polytope algorithms."),
+ "C08": dict(category="model_checking", design="DESIGN.md §2.1, §5 C08",
+   technique="explicit-state BFS over create/get/reseed/draw/divide histories on live grid objects; bitwise comparison with a reference table from fresh subprocesses",
+   text="All histories up to depth 2 (thorough 3) over an alphabet of 8 grid specs x 6 getters + global-RNG reseed/draw + further subdivision are executed on live objects; states are digests of every mutable object field plus numpy's global RNG state; every observation must equal, bit for bit, the first call on a fresh object in a fresh process (table built in subprocesses under three PYTHONHASHSEED values). Long getter-order histories per spec and the prefix claim for every N <= Nmax are added.",
+   note="Trusted: sha256 of raw bytes. The initial RNG state is fixed by the harness and then varied by events. Bound: depth 2/3, N <= 64/200 (3-D) and 24/80 (4-D) for prefixes."),
+ "C09": dict(category="exploration", design="DESIGN.md §5 C09",
+   technique="exhaustive enumeration of grid combinations; every row and every small index subset against an independent row formula",
+   text="6 rotation x 6 direction x 4 radial grids (thorough wider): every row equals radius[t]*direction[o] ++ rotation[n mod n_b] built from separately constructed grids and exact-rational radii; index helpers are checked for None, every single index, every ordered pair (n<=40), prefixes, suffixes and strided slices; the decomposition returns the generating grids in order.",
+   note="Trusted: divmod formula in checks/c09.py."),
+ "C10": dict(category="model_checking", design="DESIGN.md §5 C10",
+   technique="exhaustive frame-by-frame comparison with an independent rigid-motion oracle, plus per-frame differential replay from the initial state",
+   text="5 (thorough 7) second molecules incl. single atom, planar and asymmetric ones x 2 first molecules x real grids and non-grid arrays (12 positions x (24 cube rotations + 30 generic quaternions)): every frame and atom equals R(q_k)(ref - com) + pos_k with an own scalar-last quaternion formula; since the generator mutates one live molecule, every 7th frame (all for small arrays) is re-derived from the initial state by a single-row pseudotrajectory and must agree.",
+   note="Trusted: quaternion formula in mc/molecules.py; tolerance 5e-5 Angstrom (float32 coordinates; measured deviation 5e-7)."),
+ "C11": dict(category="exploration", design="DESIGN.md §5 C11",
+   technique="exhaustive enumeration of a finite placement lattice against an independent nearest-cell search with ambiguity margin",
+   text="3 grids (thorough 6) x 3 molecules x include_outliers x metric flag: every placement of (generic + grid rotations) x (rotated Fibonacci + grid directions) x distances straddling every shell boundary and the outer bound is assigned by the real AssignmentTool and compared with nearest shell / direction / rotation; the grid's own pseudotrajectory must be assigned to 0,1,2,...",
+   note="The continuous placement space is represented by a finite lattice; placements within 1e-3 of a boundary are skipped (counted)."),
+ "C14": dict(category="exploration", design="DESIGN.md §5 C14",
+   technique="exhaustive enumeration of grid/energy/temperature/solver configurations end to end through the file system, ARPACK start vector enumerated via the eigs seam",
+   text="160 grid configurations (thorough ~580) are written with GridWriter, read with GridReader and turned into rate matrices for 2 landscapes x 2 temperatures: detailed balance w.r.t. V exp(-E/RT) for every pair and pattern = saved adjacency; for a quarter (thorough: all) the decomposition is run for 4 solver settings x k in {6,12} x 3 start vectors and compared with a dense eigen-solver (order, values, zero, stationary vector).",
+   note="ARPACK non-convergence (an explicit solver exception) is counted, not judged. Start vectors are enumerated over 3 values only."),
+ "C18": dict(category="model_checking", design="DESIGN.md §5 C18",
+   technique="exhaustive enumeration of subdivision/getter histories on real polytopes; state-wise set equality with independently generated ideal lattices",
+   text="Every word over {divide, get} with at most L divisions (ico 4, cube3D 4, cube4D 2; thorough ico 5) is run on a fresh polytope; after every step the node set equals the ideal lattice (KD-tree, 1e-9, multiplicity 1), projections, negation closure, index range, level order, index permanence across the history, getter/cache consistency and the half-hypercube selection are checked.",
+   note="Trusted: lattice generators in checks/c18.py. cube4D level 3 is outside the bound."),
+ "C20": dict(category="exploration", design="DESIGN.md §5 C20",
+   technique="exhaustive enumeration of small grids and of the xvg header/legend/row family; byte-exact round-trip comparison",
+   text="Every constructible grid of the n_b x n_o box x 3 radial grids x both modes plus 6 mid-size grids is written and read back and compared byte for byte (dtype, shape, sparse format, stored entry order) with a separately built in-memory grid; 1260 xvg files (every '#'-count 0..13 x header length x 1..10 legends x row counts) are parsed and compared with the text, incl. single-column getter and csv round trip.",
+   note="Legend texts without double quotes; GROMACS fixed number format."),
 }
 NOT_YET = {}
 
